@@ -1299,7 +1299,7 @@ func zzC11(t *testing.T, res *zzResult, rng *rand.Rand, work, tier string) {
 // hash), unless the file has been completed and delivered.
 func zzC09(e *zzEnv, rng *rand.Rand, tier string) {
 	res := e.res
-	rounds := 12
+	rounds := 40
 	if tier == "thorough" {
 		rounds = 150
 	}
